@@ -96,6 +96,7 @@ type trzszTransfer struct {
 	lastChunkTimeIdx int
 	stdinState       *term.State
 	fileNameMap      map[int]string
+	receivedDirs     map[string]bool
 	windowsProtocol  bool
 	flushInTime      bool
 	bufInitWG        sync.WaitGroup
@@ -140,6 +141,7 @@ func newTransfer(writer io.Writer, stdinState *term.State, flushInTime bool, log
 		cleanTimeout: 100 * time.Millisecond,
 		stdinState:   stdinState,
 		fileNameMap:  make(map[int]string),
+		receivedDirs: make(map[string]bool),
 		flushInTime:  flushInTime,
 		transferConfig: transferConfig{
 			Timeout:    20,
@@ -1128,6 +1130,13 @@ func (t *trzszTransfer) createDirOrFile(path string, srcFile *sourceFile, trunca
 	}
 
 	if srcFile.IsDir {
+		// a sender announces each directory once; a repeated entry (e.g. a line duplicated in transit)
+		// must not be counted as the next one, or the last entries would be silently left out
+		dirKey := fmt.Sprintf("%d:%q", srcFile.PathID, srcFile.RelPath)
+		if t.receivedDirs[dirKey] {
+			return nil, "", simpleTrzszError("Duplicate directory entry: %s", filepath.Join(srcFile.RelPath...))
+		}
+		t.receivedDirs[dirKey] = true
 		if err := t.doCreateDirectory(fullPath, srcFile.Perm); err != nil {
 			return nil, "", err
 		}
